@@ -143,12 +143,23 @@ Fixpoint rpm_dedupe (seen : list Z) (sigs : list (Z * bool)) (nochain : bool) : 
   end.
 Definition rpm_verify_report (sigs : list (Z * bool)) (nochain : bool) : result (option (list (Z * bool))) :=
   if rpm_not_signed (zlen sigs) then Ok None else r <- rpm_dedupe [] sigs nochain ;; Ok (Some r).
-(* nevra(): the printed name with the last four characters (".rpm") cut; Panic when GetNEVRA failed (nil receiver) *)
+(* nevra(): NEVRA.String() is "<name>-<epoch>:<version>-<release>.<arch>" followed by ".rpm" (go-rpmutils); relic cuts the last four
+   characters.  The argument is what precedes ".rpm", None when GetNEVRA fails (no NAME / VERSION / RELEASE / ARCH tag): the error is looked
+   at first and the name is empty.  Panic 1 = the result used although GetNEVRA failed (nil receiver); Panic 2 = slice bound below zero. *)
+Definition DOT_RPM : bytes := [46; 114; 112; 109].
 Definition rpm_nevra (nevra : option bytes) : result bytes :=
   match nevra with
-  | None => if rpm_nevra_ignores_error then Panic 1 else Err 1
-  | Some s => if rpm_nevra_cut (zlen s) <? 0 then Panic 2 else Ok (ztake (rpm_nevra_cut (zlen s)) s)
+  | None => if rpm_nevra_keeps_error && rpm_nevra_gives_up true then Ok [] else Panic 1
+  | Some p =>
+      if rpm_nevra_gives_up false then Ok [] else
+      let s := if rpmu_nevra_ends_in_dot_rpm then p ++ DOT_RPM else p in
+      if rpm_nevra_cut (zlen s) <? 0 then Panic 2 else Ok (ztake (rpm_nevra_cut (zlen s)) s)
   end.
+(* server/view_sign.go serveSign: a signature type is served when the module exists and can sign; calling the nil Sign of a module that only
+   verifies would be Panic 3 *)
+Definition srv_sign_dispatch (module_exists can_sign : bool) : result bool :=
+  if srv_refuses_sigtype (negb module_exists) (negb can_sign) then Ok false
+  else if negb module_exists then Panic 4 else if negb can_sign then Panic 3 else Ok true.
 
 (* --- SPEC: RPM file format (rpm.org "RPM Package format": 96-byte lead with magic ED AB EE DB; header structure = 8E AD E8,
    version 01, 4 reserved bytes, big-endian index count il, big-endian store size dl, il 16-byte index entries, dl bytes of
